@@ -85,6 +85,9 @@ CheckRuns(mm) ==
              ELSE IF o.sp0 = run.obs[1].sp0 THEN TRUE
              ELSE Report("stack", run.cfg, "stack pointer at start of evaluation differs from first evaluation",
                          run.obs[1].sp0, o.sp0)
+          \* the stack trace belongs to the failed evaluation (C07): a successful evaluation reports none
+          /\ IF ~Has(o, "stale_tr") THEN TRUE
+             ELSE Report("stack", run.cfg, "a successful evaluation still reports the stack trace of an earlier failure", "none", "stale")
           \* slices (C13): a resumed slice with work left executes at least one instruction
           /\ IF ~Has(o, "stalled") THEN TRUE
              ELSE IF o.stalled = 0 THEN TRUE
